@@ -85,6 +85,46 @@ func rogueHostRun(srvURL, thruBin, attack string) rogueOutcome {
 		o.Trouble = "no candidate"
 		return o
 	}
+	if strings.HasPrefix(attack, "abandon-") {
+		// a dialer without the code opens connections and closes each the way an honest sender abandons the losers of
+		// its dial race (the receiver then waits for "the connection the sender kept"); after k of them it opens one more
+		// and pushes a file without any authentication
+		k := len(h.cands)
+		fmt.Sscanf(attack, "abandon-%d-then-plant", &k)
+		first, err := dialCandidate(h.cands[0])
+		if err != nil {
+			o.Trouble = "dial: " + err.Error()
+			return o
+		}
+		time.Sleep(150 * time.Millisecond) // the receiver takes it as its primary
+		first.abandon()
+		for i := 1; i < k; i++ {
+			c, err := dialCandidate(h.cands[i%len(h.cands)])
+			if err != nil {
+				break
+			}
+			time.Sleep(60 * time.Millisecond)
+			c.abandon()
+		}
+		last, err := dialCandidate(h.cands[0])
+		if err == nil {
+			defer last.close()
+			src := filepath.Join(work, "plant", "selection")
+			os.MkdirAll(src, 0o755)
+			os.WriteFile(filepath.Join(src, "planted.txt"), []byte("no code needed"), 0o644)
+			if m, err := manifest.Scan(src); err == nil {
+				pctx, pcancel := context.WithTimeout(context.Background(), 6*time.Second)
+				_ = transfer.SendManifestMultiStream(pctx, last.tc, src, m, transfer.Options{ChunkSize: 64, ParallelFiles: 1})
+				pcancel()
+			}
+		}
+		code, exited := h.child.wait(14 * time.Second)
+		o.Exit, o.Exited = code, exited
+		summariseTrace(h.child.events(), &o)
+		o.Files = listFiles(h.outDir)
+		o.Output = tailText(h.child.out.String(), 300)
+		return o
+	}
 	c, err := dialCandidate(h.cands[0])
 	if err != nil {
 		o.Trouble = "dial: " + err.Error()
@@ -290,14 +330,15 @@ func AuthBinaries(args []string) {
 	res := &Result{Extra: map[string]any{}}
 	type job struct{ side, attack string }
 	var jobs []job
-	for _, a := range []string{"wrong-code", "garbage-proof", "receiver-role-proof", "manifest-instead-of-auth"} {
+	for _, a := range []string{"wrong-code", "garbage-proof", "receiver-role-proof", "manifest-instead-of-auth", "abandon-1-then-plant", "abandon-4-then-plant", "abandon-5-then-plant", "abandon-6-then-plant", "abandon-9-then-plant"} {
 		jobs = append(jobs, job{"host", a})
 	}
 	for _, a := range []string{"reflect", "garbage-proof", "wrong-code", "sender-role-proof", "closes"} {
 		jobs = append(jobs, job{"receiver", a})
 	}
 	if *quick {
-		jobs = []job{{"host", "wrong-code"}, {"host", "manifest-instead-of-auth"}, {"receiver", "reflect"}, {"receiver", "wrong-code"}}
+		jobs = []job{{"host", "wrong-code"}, {"host", "manifest-instead-of-auth"}, {"receiver", "reflect"}, {"receiver", "wrong-code"},
+			{"host", "abandon-5-then-plant"}, {"host", "abandon-6-then-plant"}, {"host", "abandon-2-then-plant"}}
 	}
 	outcomes := map[string]int{}
 	trouble := 0
